@@ -6,6 +6,7 @@
  *  VERIF_FAIL=<op>:<substr>:<k>:<errno>   fail the k-th (1-based) call of <op> whose path contains <substr>
  *                         ops: read pread write pwrite fsync open rename ftruncate fallocate unlink
  *  VERIF_FAIL_FROM=1    (with VERIF_FAIL) fail the k-th and every later matching call
+ *  VERIF_FAIL_N=<n>     (with VERIF_FAIL) fail the k-th and the next n-1 matching calls
  *  VERIF_CORRUPT=<substr>:<k>   silent write fault: the k-th write()/pwrite() on a path containing <substr>
  *                        stores one flipped bit (first byte) and reports success
  *  VERIF_KILL=<k>:<before|after|mid>      SIGKILL self at the k-th state-changing call
@@ -31,7 +32,7 @@
 
 static int logfd = -1;
 static long seq;
-static long fail_k, fail_cnt, fail_errno, fail_from, fired;
+static long fail_k, fail_cnt, fail_errno, fail_from, fail_n = 1, fired;
 static char fail_op[32], fail_sub[256];
 static long kill_k;
 static int kill_when; /* 0 before 1 after 2 mid */
@@ -73,6 +74,7 @@ static void init(void)
 				if (*q == ':') fail_errno = strtol(q + 1, 0, 10); else fail_errno = EIO; } }
 	}
 	if (getenv("VERIF_FAIL_FROM")) fail_from = 1;
+	if ((e = getenv("VERIF_FAIL_N")) != 0 && atol(e) > 0) fail_n = atol(e);
 	if ((e = getenv("VERIF_CORRUPT")) != 0) {
 		const char *q = strrchr(e, ':');
 		if (q && (size_t)(q - e) < sizeof(corrupt_sub)) { memcpy(corrupt_sub, e, q - e); corrupt_sub[q - e] = 0; corrupt_k = strtol(q + 1, 0, 10); }
@@ -125,7 +127,7 @@ static int want_fail(const char *op, const char *path)
 	if (!fail_k || strcmp(op, fail_op) != 0 || !path || !strstr(path, fail_sub)) return 0;
 	pthread_mutex_lock(&mu);
 	++fail_cnt;
-	if (fail_cnt == fail_k || (fail_from && fail_cnt > fail_k)) { r = 1; ++fired; }
+	if ((fail_cnt >= fail_k && fail_cnt < fail_k + fail_n) || (fail_from && fail_cnt > fail_k)) { r = 1; ++fired; }
 	pthread_mutex_unlock(&mu);
 	if (r) errno = (int)fail_errno;
 	return r;
